@@ -9,7 +9,7 @@ Local Open Scope Z_scope.
 
 (** ** What the parser guarantees about the opcode list it returns *)
 Definition next_depth (d : Z) (v : N) : Z :=
-  if (v =? OP_IF)%N || (v =? OP_NOTIF)%N || (v =? OP_VERIF)%N || (v =? OP_VERNOTIF)%N then d + 1
+  if (v =? OP_IF)%N || (v =? OP_NOTIF)%N then d + 1
   else if (v =? OP_ENDIF)%N then d - 1 else d.
 
 Inductive wf_ops (eoc : bool) : Z -> list pop -> Prop :=
@@ -217,15 +217,16 @@ Proof.
   - apply orb_false_iff in Eif. destruct Eif as [Ei En].
     destruct ((p_val p =? OP_VERIF)%N || (p_val p =? OP_VERNOTIF)%N) eqn:Ever.
     + (* VERIF / VERNOTIF: no change or error *)
-      assert (Hnd : next_depth d (p_val p) = d + 1).
-      { unfold next_depth. rewrite Ei, En. cbn [orb]. rewrite Ever. reflexivity. }
+      assert (Hnd : next_depth d (p_val p) = d).
+      { unfold next_depth. rewrite Ei, En. cbn [orb].
+        apply orb_true_iff in Ever. destruct Ever as [Ev|Ev]; apply N.eqb_eq in Ev; rewrite Ev; reflexivity. }
       rewrite Hnd.
       destruct (after_genesis c && negb (should_exec c s (p_val p))); split; try discriminate;
         intros s' [H|H]; try discriminate. inversion H; subst. lia.
     + destruct (p_val p =? OP_ELSE)%N eqn:Eelse.
       * destruct (cond s) as [|t cr] eqn:Ec; [split; [discriminate|intros s' [H|H]; discriminate]|].
         assert (Hnd : next_depth d (p_val p) = d).
-        { unfold next_depth. rewrite Ei, En. cbn [orb]. rewrite Ever. apply N.eqb_eq in Eelse. rewrite Eelse. reflexivity. }
+        { unfold next_depth. rewrite Ei, En. cbn [orb]. apply N.eqb_eq in Eelse. rewrite Eelse. reflexivity. }
         rewrite Hnd.
         destruct (after_genesis c).
         -- destruct (els s) as [|e er]; [split; [discriminate|intros s' [H|H]; discriminate]|].
@@ -237,7 +238,7 @@ Proof.
         -- destruct (cond s) as [|t cr] eqn:Ec; [split; [discriminate|intros s' [H|H]; discriminate]|].
            rewrite lenZ_cons in Hd.
            assert (Hnd : next_depth d (p_val p) = d - 1).
-           { unfold next_depth. rewrite Ei, En. cbn [orb]. rewrite Ever, Eend. reflexivity. }
+           { unfold next_depth. rewrite Ei, En. cbn [orb]. rewrite Eend. reflexivity. }
            rewrite Hnd.
            destruct (after_genesis c).
            ++ destruct (els s); split; try discriminate; intros s' [H|H]; try discriminate.
@@ -344,7 +345,7 @@ Proof.
   intros H. change (parse_ops (S f) eoc (b :: r) d) with
     (let v := b2n b in
      if eoc && requires_tx v then None else
-     let depth' := if (v =? OP_IF)%N || (v =? OP_NOTIF)%N || (v =? OP_VERIF)%N || (v =? OP_VERNOTIF)%N
+     let depth' := if (v =? OP_IF)%N || (v =? OP_NOTIF)%N
                    then d + 1 else if (v =? OP_ENDIF)%N then d - 1 else d in
      if (v =? OP_RETURN)%N && (d =? 0) then
        Some (mkPop v 1 [] true ::
@@ -570,7 +571,7 @@ Proof.
                   | Some l =>
                       if has_flag c F_SIGPUSHONLY && negb (is_push_only u) then (VErr, [])
                       else
-                        let p2sh := has_flag c F_BIP16 && is_p2sh lbytes in
+                        let p2sh := has_flag c F_BIP16 && negb (after_genesis c) && is_p2sh lbytes in
                         if p2sh && negb (is_push_only u) then (VErr, [])
                         else execute so c p2sh u l
                   end
@@ -582,7 +583,7 @@ Proof.
     destruct (parse_script (c_err_on_checksig c) lbytes) as [l|] eqn:Epl; [|cbn; discriminate].
     destruct (has_flag c F_SIGPUSHONLY && negb (is_push_only u)); [cbn; discriminate|].
     cbv zeta.
-    destruct (has_flag c F_BIP16 && is_p2sh lbytes && negb (is_push_only u)); [cbn; discriminate|].
+    destruct (has_flag c F_BIP16 && negb (after_genesis c) && is_p2sh lbytes && negb (is_push_only u)); [cbn; discriminate|].
     eapply (execute_no_panic so c); eauto.
     intros Hb. apply andb_true_iff in Hb. tauto. }
   destruct (ei_unlock i) as [|ub ur] eqn:Eu; destruct (ei_lock i) as [|lb lr] eqn:El;
